@@ -248,6 +248,15 @@ def sweep_one(rec, rng, xr, da, cls, nf, nd, names):
         ops["split"] = lambda: acc.split(fmin=float(f[0]), fmax=fmid)
         ops["ptm5"] = lambda: da.spec.partition.ptm5(fcut=fmid)
         ops["stats_split"] = lambda: acc.stats(["hs", "tm01"], fmin=float(f[0]), fmax=fmid)
+        # bands that hold no grid frequency (both cutoffs inside one gap), one-sided and off-grid cutoffs
+        fs_ = np.sort(np.asarray(f, dtype="float64"))
+        g_ = int(rng.integers(0, nf - 1))
+        lo_, hi_ = fs_[g_] + 0.25 * (fs_[g_ + 1] - fs_[g_]), fs_[g_] + 0.75 * (fs_[g_ + 1] - fs_[g_])
+        if fs_[g_] < lo_ < hi_ < fs_[g_ + 1]:
+            ops["split_narrow"] = lambda: acc.split(fmin=float(lo_), fmax=float(hi_))
+            ops["stats_split_narrow"] = lambda: acc.stats(["hs", "tm01"], fmin=float(lo_), fmax=float(hi_))
+            ops["split_fmin_only"] = lambda: acc.split(fmin=float(lo_))
+            ops["split_fmax_only"] = lambda: acc.split(fmax=float(hi_))
     for op, fn in ops.items():
         try:
             r = fn()
@@ -266,11 +275,11 @@ def sweep_one(rec, rng, xr, da, cls, nf, nd, names):
         allowed = False
         if op in NEVER_NAN:
             allowed = False
-        elif op in NAN_IF_ZERO or op in ("swe", "dm", "dp", "gamma", "stats_split"):
+        elif op in NAN_IF_ZERO or op in ("swe", "dm", "dp", "gamma", "stats_split", "stats_split_narrow"):
             allowed = bool(zero.any()) or op in ("gw",) or (op == "hmax") or (op in ("dspr", "fdspr"))
         if op in NAN_IF_NOPEAK:
             allowed = bool(nopeak.any())
-        if op in ("sw", "stats_split"):
+        if op in ("sw", "stats_split", "stats_split_narrow"):
             allowed = True  # sw documents masking below hs 0.001; a split band can be empty
         if op in ("dpspr",):
             allowed = True  # spread of a (near) unidirectional row is at the rounding floor
